@@ -27,7 +27,11 @@ def main():
     rep.validation.append(dict(name='repository tests test_storage/test_trajectories/test_emissions_storage with the netCDF4 model substituted', ok=ok, summary=tail))
     if not ok:
         rep.inconclusive.append('netCDF4 model does not pass the repository storage tests: ' + tail)
-    jobs = [dict(kind='kernel')] + [dict(kind='hist', L=L, first_ops=[a, b], huge=(tier != 'quick'), deadline_s=800 if tier == 'quick' else 3000) for a in c07.OPS for b in c07.OPS]
+    import itertools
+    # histories are partitioned over jobs by their first two (thorough: three) operations
+    prefixes = list(itertools.product(c07.OPS, repeat=2 if tier == 'quick' else 3))
+    jobs = [dict(kind='kernel')] + [dict(kind='hist', L=L, first_ops=list(pre), huge=(tier != 'quick'), deadline_s=800 if tier == 'quick' else 3000) for pre in prefixes]
+    jobs.sort(key=lambda j: -sum(1 for o in j.get('first_ops', []) if o == 'add'))        # the largest sub-trees first
     results = common.pmap(_job, jobs)
     cands = []
     for (status, out), job in zip(results, jobs):
